@@ -80,10 +80,14 @@ def runSection (r : Report) (s : Section) : Report := Id.run do
     return r.mismatch s.idx 0 "bad-cfg" (joinSp s.cfg)
   let mut st : CSt := { now := t0, sh := Shedder.new window buckets threshold t0 }
   r := r.addCover "csection"
+  -- after a line that cannot be interpreted the bookkeeping of the section is lost: report it once, judge nothing further
+  let mut dead := false
   for l in s.lines do
     r := { r with ops := r.ops + 1 }
+    if dead then continue
     if l.obs.head? = some "PANIC" then
       r := r.mismatch s.idx l.idx "an observation" (joinSp (l.obs.take 12))
+      dead := true
       continue
     match l.op with
     | ["t+", d] =>
@@ -97,6 +101,7 @@ def runSection (r : Report) (s : Section) : Report := Id.run do
       let evs := l.obs.drop 6
       if kvNat l.obs "ev" 0 ≠ evs.length ∨ (l.obs.take 6).length ≠ 6 then
         r := r.mismatch s.idx l.idx s!"ev={evs.length}" (joinSp (l.obs.take 8))
+        dead := true
         continue
       r := r.addCover "round"
       r := r.addCover s!"round-hot-mode-{kvNat args "hot" 9}"
@@ -165,6 +170,7 @@ def runSection (r : Report) (s : Section) : Report := Id.run do
         else rd := { rd with bad := some tok }
       if rd.bad.isSome ∨ !rd.pending.isEmpty ∨ !rd.pprobe.isEmpty ∨ st.live.any (fun q => q.rb.isSome) then
         r := r.mismatch s.idx l.idx "a well-formed history" s!"bad event {rd.bad} pending={rd.pending.length}"
+        dead := true
         continue
       if !rd.hots.isEmpty then
         st := { st with lastHot := some st.now, sh := { st.sh with overloadTime := st.now } }
